@@ -691,7 +691,34 @@ func compressionCase(rt *rapid.T) c04Case {
 var wrongDests = []string{"iface", "pref", "wrong:int", "wrong:string", "wrong:bytes", "wrong:intslice", "wrong:ifaceslice", "wrong:array3", "wrong:array0",
 	"wrong:strmap", "wrong:intmap", "wrong:struct", "wrong:nonpointer", "wrong:nil", "wrong:nilptr", "wrong:time"}
 
+// specialScalarCase: a fixed-width scalar whose bytes are a special bit pattern (NaNs, infinities, minus zero, the extremes
+// of the integer types), decoded into each Go representation the codec accepts for the type (e.g. a NaN double into *big.Float).
+func specialScalarCase(rt *rapid.T) c04Case {
+	v := gen.Version(rt)
+	dt := rapid.SampledFrom([]datatype.DataType{datatype.Float, datatype.Double, datatype.Double, datatype.Int, datatype.Bigint, datatype.Timestamp, datatype.Counter}).Draw(rt, "type")
+	w := 8
+	if dt == datatype.Float || dt == datatype.Int {
+		w = 4
+	}
+	pat := rapid.SampledFrom([]uint64{0, 0xffffffffffffffff, 0x8000000000000000, 0x7fffffffffffffff, 0x7ff0000000000000, 0xfff0000000000000,
+		0x7ff8000000000001, 0xfff8000000000000, 0x7ff0000000000001, 0x7f800000ffffffff, 0xff800000ffffffff, 0x7fc00001ffffffff, 0x7f800001ffffffff, 0x0000000000000001}).Draw(rt, "pattern")
+	valid := make([]byte, w)
+	for i := 0; i < w; i++ {
+		valid[i] = byte(pat >> (8 * uint(7-i)))
+	}
+	tb, err := ref.EncodeOption(dt, v)
+	if err != nil {
+		rt.Fatalf("harness defect: %v", err)
+	}
+	kind := rapid.SampledFrom(gen.ScalarRepKinds(dt.Code())).Draw(rt, "destRep")
+	rj, _ := json.Marshal(&gen.Rep{Kind: kind, Ptr: rapid.Bool().Draw(rt, "ptr"), ArrLen: -1})
+	return c04Case{args: []string{"datacodec.Decode", strconv.Itoa(int(v)), hex.EncodeToString(tb), "rep:" + string(rj), "data"}, valid: valid}
+}
+
 func valueDecodeCase(rt *rapid.T) c04Case {
+	if rapid.IntRange(0, 5).Draw(rt, "specialScalar") == 0 {
+		return specialScalarCase(rt)
+	}
 	v := gen.Version(rt)
 	dt := gen.ValueType(rt, v, rapid.IntRange(0, 3).Draw(rt, "depth"), "type")
 	rep := gen.DrawRep(rt, dt, false, "rep")
@@ -700,6 +727,16 @@ func valueDecodeCase(rt *rapid.T) c04Case {
 	valid, err := ref.SerializeValue(dt, av, v)
 	if err != nil {
 		rt.Fatalf("harness defect: %v", err)
+	}
+	// fixed-width scalars: special bit patterns (NaNs, infinities, minus zero, extremes of the integer types) as the bytes to
+	// decode - into every destination kind below, e.g. a NaN double into a *big.Float
+	if w := len(valid); (w == 4 || w == 8) && !isComposite(dt) && rapid.IntRange(0, 2).Draw(rt, "specialBits") == 0 {
+		pat := rapid.SampledFrom([]uint64{0, 0xffffffffffffffff, 0x8000000000000000, 0x7fffffffffffffff, 0x7ff0000000000000, 0xfff0000000000000,
+			0x7ff8000000000001, 0xfff8000000000000, 0x7ff0000000000001, 0x7f800000ffffffff, 0xff800000ffffffff, 0x7fc00001ffffffff, 0x7f800001ffffffff, 0x0000000000000001}).Draw(rt, "pattern")
+		valid = make([]byte, w)
+		for i := 0; i < w; i++ {
+			valid[i] = byte(pat >> (8 * uint(7-i)))
+		}
 	}
 	tb, err := ref.EncodeOption(dt, v)
 	if err != nil {
